@@ -632,7 +632,7 @@ func sweepCases(name string, fix uint64, si int, s seed, sem []string, firstOfDa
 		step, fstep = step*8, fstep*8 // the same bytes were swept through another entry-point variant already
 	}
 	if heavy {
-		step, fstep = step*3, fstep*3
+		step, fstep = step*2, fstep*2
 	}
 	for pos := 0; pos < n; pos += step {
 		ins = append(ins, In{Base: si, Kind: "trunc", A: pos})
@@ -650,7 +650,7 @@ func sweepCases(name string, fix uint64, si int, s seed, sem []string, firstOfDa
 	paths := mutate.IdxPaths(s.Data, 6, 400)
 	maxOps := vstat.Pick(80, 3000)
 	if heavy {
-		maxOps = 16
+		maxOps = 30
 	}
 	var opIns []In
 	for pi, p := range paths {
@@ -673,7 +673,7 @@ func sweepCases(name string, fix uint64, si int, s seed, sem []string, firstOfDa
 	for _, k := range sem {
 		na := vstat.Pick(9, 36)
 		if heavy {
-			na = 3
+			na = 5
 		}
 		for a := 0; a < na; a++ {
 			for cc := 0; cc < vstat.Pick(2, 4); cc++ {
